@@ -1183,6 +1183,13 @@ def bincount(x, minlength=0):
 def cumsum(a, axis=None):
     return a.cumsum()
 
+def diff(a, n=1, axis=-1):
+    """a[1:] - a[:-1] in the array's own dtype (int64 differences wrap, as NumPy's do)"""
+    a = a if isinstance(a, ndarray) else array(a)
+    for _ in range(int(n)):
+        a = (a[1:] != a[:-1]) if a.dtype.kind == "b" else (a[1:] - a[:-1])
+    return a
+
 # ------------------------------------------------------------------ element-wise functions
 
 def _ufunc1(x, f, dt_out=None, kinds="f", name="ufunc"):
